@@ -124,6 +124,19 @@ theorem compound_set_keeps_members (ex : Raw → Explode) (n : Node) (hnd : Keys
     · exact ⟨rfl, by rw [kids_withKids]; exact this⟩
     · exact ⟨rfl, by rw [kids_withKids]; exact this⟩
     · exact ⟨rfl, by rw [kids_withKids]; exact this⟩
+  | assignThenRaise vs =>
+    have := assignKids_hdrs n.sch.subs vs n.kids next hnd
+    simp only
+    split
+    · exact ⟨rfl, by rw [kids_withKids]; exact this⟩
+    · exact ⟨rfl, by rw [kids_withKids]; exact this⟩
+
+/-- the wider contract is inhabited and observable: an `explode` that sets year and month to None and then
+    raises (the `set(None)` fallback loop of `DateYYYYMMDD.explode` with a day member whose `valid_value` raises
+    on None) returns False and leaves year / month None, day as it was -/
+def exRaisingDay : Raw → Explode
+  | .str _ => .assignThenRaise [.none, .none]
+  | _ => .raises
 
 /-! ### every call -/
 
@@ -305,6 +318,14 @@ example : dateExplode (.str ['\u00a0', '2', '0', '2', '4', '-', '0', '2', '-', '
 /-- the whole call: members hold 2024 / 2 / 29 after `set('٢٠٢٤-٠٢-٢٩')` -/
 example : (compoundStep dateExplode (cblank exDate 1).1 (.set (.str ['٢', '٠', '٢', '٤', '-', '٠', '٢', '-', '٢', '٩']) none) 10).node.kids.map
     (fun c => c.ni.val) = [.int 2024, .int 2, .int 29] := by decide
+
+/-- the wider contract at work: members 2024 / 2 / 29, then a `set` whose explode sets a prefix and raises:
+    False, year and month None, day untouched, the same three members under the same keys -/
+def exAfterDate : MState := crun dateExplode ⟨(cblank exDate 1).1, 10⟩ (exDateHist.take 7)
+example : (compoundStep exRaisingDay exAfterDate.node (.set (.str ['j']) none) exAfterDate.next).out = .bool false := by rfl
+example : (compoundStep exRaisingDay exAfterDate.node (.set (.str ['j']) none) exAfterDate.next).node.kids.map (fun c => c.ni.val) =
+    [.none, .none, .int 29] := by decide
+example : keys (compoundStep exRaisingDay exAfterDate.node (.set (.str ['j']) none) exAfterDate.next).node = keys exAfterDate.node := by decide
 
 /-- a user-supplied first field is kept, the other two are generated -/
 example : (prepare [.mk { cid := 7, kind := .integer, name := some ['y'] } .none []] false (2, 3, 4)).map Schema.key =
